@@ -14,16 +14,17 @@ def rank (s : St) : Nat :=
   | .failReturn => 1
   | .failReport => 2
   | .failRelease => 3
-  | .finRelease _ => 1
-  | .finPostStop _ => 2
-  | .finDropRx _ => 3
-  | .finPreStop _ => 4
-  | .finBegin _ => 5
-  | .polledStop => if s.queue.isEmpty then 8 else 6
-  | .atRecv => 7
-  | .handling _ _ => 8
-  | .postStart => 9
-  | .preStarted => 10
+  | .finNotify _ => 1
+  | .finRelease _ => 2
+  | .finPostStop _ => 3
+  | .finDropRx _ => 4
+  | .finPreStop _ => 5
+  | .finBegin _ => 6
+  | .polledStop => if s.queue.isEmpty then 9 else 7
+  | .atRecv => 8
+  | .handling _ _ => 9
+  | .postStart => 10
+  | .preStarted => 11
   | .init => 12
 
 def measure (s : St) : Nat := 3 * s.queue.length + rank s
@@ -85,7 +86,10 @@ theorem batch_decreases (sc : Script) (s s' : St) (hr : InvR s) (hne : nextEvent
   | finPreStop e => simp [hpc, run, step, St.obs] at h; subst h; simp [measure, rank, hpc]
   | finDropRx e => simp [hpc, run, step] at h; subst h; simp [measure, rank, hpc]
   | finPostStop e => simp [hpc, run, step, St.obs] at h; subst h; simp [measure, rank, hpc]
-  | finRelease e => simp [hpc, run, step] at h; subst h; simp [measure, rank, hpc]
+  | finRelease e =>
+    simp [hpc, run, step] at h; subst h
+    by_cases hd : s.detached = true <;> simp [measure, rank, hpc, hd]
+  | finNotify e => simp [hpc, run, step] at h; subst h; simp [measure, rank, hpc]
 
 theorem invR_run (s s' : St) (es : List Ev) (hi : InvR s) (h : run s es = some s') : InvR s' := by
   induction es generalizing s with
